@@ -458,8 +458,72 @@ func extErrorf(fr *frame, args []value) value {
 	return call(in, fr, token.NoPos, newFn, []value{msg})
 }
 
+// strconv formatting of symbolic integers (concrete arguments run the real code).
+func (fr *frame) fmtSymStrconv(x value, base value, signed bool) ([]value, bool) {
+	t, ok := x.(*Term)
+	if !ok {
+		return nil, false
+	}
+	b, ok := base.(int)
+	if !ok || (b != 10 && b != 8 && b != 16) {
+		panic(engineError{"strconv formatting of a symbolic integer in an unsupported base"})
+	}
+	verb := byte('d')
+	switch b {
+	case 8:
+		verb = 'o'
+	case 16:
+		verb = 'x'
+	}
+	var typ types.Type = types.Typ[types.Uint64]
+	if signed {
+		typ = types.Typ[types.Int64]
+	}
+	return fr.formatSymInt(t, typ, verb, 0, -1, false), true
+}
+
+func extFormatUint(fr *frame, args []value) value {
+	if bs, ok := fr.fmtSymStrconv(args[0], args[1], false); ok {
+		return mkString(bs)
+	}
+	return useBody{}
+}
+
+func extFormatInt(fr *frame, args []value) value {
+	if bs, ok := fr.fmtSymStrconv(args[0], args[1], true); ok {
+		return mkString(bs)
+	}
+	return useBody{}
+}
+
+func extItoa(fr *frame, args []value) value {
+	if bs, ok := fr.fmtSymStrconv(args[0], 10, true); ok {
+		return mkString(bs)
+	}
+	return useBody{}
+}
+
+func extAppendUint(fr *frame, args []value) value {
+	if bs, ok := fr.fmtSymStrconv(args[1], args[2], false); ok {
+		return append(args[0].([]value), bs...)
+	}
+	return useBody{}
+}
+
+func extAppendInt(fr *frame, args []value) value {
+	if bs, ok := fr.fmtSymStrconv(args[1], args[2], true); ok {
+		return append(args[0].([]value), bs...)
+	}
+	return useBody{}
+}
+
 func init() {
 	for k, v := range map[string]externalFn{
+		"strconv.FormatUint": extFormatUint,
+		"strconv.FormatInt":  extFormatInt,
+		"strconv.Itoa":       extItoa,
+		"strconv.AppendUint": extAppendUint,
+		"strconv.AppendInt":  extAppendInt,
 		"fmt.Sprintf":  extSprintf,
 		"fmt.Sprint":   extSprint,
 		"fmt.Sprintln": extSprintln,
